@@ -8,6 +8,7 @@ pub mod c05;
 pub mod c07;
 pub mod c08;
 pub mod c09;
+pub mod c10;
 pub mod c11;
 pub mod c12;
 pub mod c13;
@@ -29,6 +30,7 @@ pub fn dispatch(ctx: &Ctx, rep: &mut Report) -> bool {
         "C07" => c07::run(ctx, rep),
         "C08" => c08::run(ctx, rep),
         "C09" => c09::run(ctx, rep),
+        "C10" => c10::run(ctx, rep),
         "C11" => c11::run(ctx, rep),
         "C12" => c12::run(ctx, rep),
         "C13" => c13::run(ctx, rep),
